@@ -138,7 +138,7 @@ func runC08(sum *hutil.Summary, tmp string, reps int, seed uint64) {
 				return
 			}
 			res := runC08Scenario(bin, filepath.Join(tmp, fmt.Sprintf("c08-%d", j.idx)), j.c.cause, j.c.variant, j.rep)
-			if res.HarnessErr != "" && isHandoffVariant(j.c.variant) {
+			if res.HarnessErr != "" && (isHandoffVariant(j.c.variant) || isOpenWaitVariant(j.c.variant)) {
 				// the harness' own set-up did not get there (loaded machine): says nothing about the code, once more
 				time.Sleep(200 * time.Millisecond)
 				res = runC08Scenario(bin, filepath.Join(tmp, fmt.Sprintf("c08-%d-again", j.idx)), j.c.cause, j.c.variant, j.rep)
